@@ -186,8 +186,12 @@ func drawReads(c *simkit.Choices) []int {
 
 // shared inputs of one run: prepared once, handed to several tasks read-only
 type shared struct {
-	vals  []interface{}
-	types []*model.TypeEntry
+	// fold-only values (inline interface / Folder / map fields): shared by the
+	// fold-encode operations of all tasks
+	foldVals  []interface{}
+	foldTypes []*model.TypeEntry
+	vals      []interface{}
+	types     []*model.TypeEntry
 	docs  [][]byte
 	fmts  []model.Format
 	dtype []*model.TypeEntry
@@ -201,6 +205,11 @@ func genShared(c *simkit.Choices) *shared {
 	te0 := model.TypeByName(inner[c.N(len(inner))])
 	s.types = append(s.types, te0)
 	s.vals = append(s.vals, te0.Gen(c))
+	for i, n := 0, 1+c.N(2); i < n; i++ {
+		te := model.TypeByName([]string{"InlineIfc", "InlineFolder", "InlineMap", "InlineTyped", "WithFolder", "InlineIfc"}[c.N(6)])
+		s.foldTypes = append(s.foldTypes, te)
+		s.foldVals = append(s.foldVals, te.Gen(c))
+	}
 	// the second shared value is a map whose key needs HTML escaping: its
 	// encoding depends on a per-encoder option
 	hk := []string{"<a>", "a&b", "x<y>&z", "<", "k>"}[c.N(5)] + model.GenKey(c, 6)
@@ -264,9 +273,13 @@ func genOp(c *simkit.Choices, sh *shared, taskIdx int) *op {
 		i := c.N(len(sh.vals))
 		f := model.Formats[c.N(3)]
 		val, tname := sh.vals[i], sh.types[i].Name
-		if c.N(4) == 0 { // a value of its own, possibly of a fold-only type
+		switch c.N(6) {
+		case 0: // a value of its own, possibly of a fold-only type
 			te := model.PickType(c, false, false, false)
 			val, tname = te.Gen(c), te.Name
+		case 1, 2: // a shared value with inline interface / Folder / map fields
+			j := c.N(len(sh.foldVals))
+			val, tname = sh.foldVals[j], sh.foldTypes[j].Name
 		}
 		eo := c.N(8)
 		return &op{desc: OpDesc{Kind: "fold-encode", Format: string(f), Type: tname, Variant: eo},
